@@ -1386,9 +1386,12 @@ class DocutilsRenderer(RendererProtocol):
 
     def render_table_row(self, token: SyntaxTreeNode) -> None:
         row = nodes.row()
+        self.add_line_and_source_path(row, token)
         with self.current_node_context(row, append=True):
             for child in token.children or []:
                 entry = nodes.entry()
+                # markdown-it gives cells no map of their own: they are on the row's line
+                self.add_line_and_source_path(entry, token)
                 para = nodes.paragraph(
                     child.children[0].content if child.children else ""
                 )
